@@ -17,7 +17,7 @@ TECHNIQUE = "Lean 4 state-machine refinement proof + exact differential run over
 RULE = ("random histories (<= 20 ops) of receive / all_waveforms / waveforms / is_hit / full_waveform / "
         "is_hit_during / make_noise / clear(reset) on Antenna (noiseless and noisy with a patched deterministic "
         "noise class), DipoleAntenna (threshold trigger) and AntennaSystem (lead-in 0, 2.5 dt, 10 dt; halving or "
-        "pass-through, pedestal-subtracting or echo front end; optional system-level trigger; built from an instance or "
+        "pass-through, pedestal-subtracting, echo, clipping or rectifying front end; optional system-level trigger; built from an instance or "
         "via class + setup_antenna; inner-antenna queries interleaved); is_hit_mc_truth; receive of two polarisation "
         "components in one call; `times` arguments as float array / list / tuple / integer array; plus real-thermal-noise histories (seeded numpy RNG, "
         "Antenna / DipoleAntenna / AntennaSystem, make_noise / full_waveform / receive / all_waveforms / clear on 2-4 "
@@ -28,9 +28,22 @@ LEVEL_TEXT = ("theorems over all histories of the Lean state machine (unbounded 
               "tied to the code by an exact (bit-for-bit rational) differential run of every operation output and "
               "every private cache length")
 LEVEL_NOTE = ("assumed: numpy.interp is piecewise-linear interpolation with left=right=0; apply_response (C08) and "
-              "the thermal-noise class (C17) are replaced by exact stand-ins; grids with fewer than two points or "
-              "not strictly increasing are outside the model (the code raises IndexError / numpy misbehaves). "
-              "C09_system_full_is_sum assumes a front end that keeps the grid and is additive. No _partial theorem.")
+              "the thermal-noise class (C17) are replaced by exact stand-ins in the exact run. "
+              "The clause 'sum of the received signals, each passed through the front end' (C09_system_full_is_sum) is "
+              "decided for ADDITIVE front ends only (hypothesis LinearFE): of the shipped ones that is the base class's "
+              "pass-through AntennaSystem.front_end; the ARA and ARIANNA front ends clip and the IREX one takes an "
+              "envelope, and for such a front end the clause cannot hold as worded because the electronics act on the "
+              "summed voltage (C09_system_sum_fails_for_clipping is the kernel-checked witness). What holds for EVERY "
+              "front end is C09_system_full_is_front_end_of_sum (waveform = front_end(antenna waveform on the lead-in "
+              "grid), re-gridded) and the search checks exactly that with clipping and rectifying front ends. "
+              "Windows of fewer than two samples, empty signals, repeated or backward-running times and lead-in grids "
+              "with a negative sample count make the code raise IndexError / ValueError / OverflowError: the model "
+              "rejects the same inputs (C09_rejected_inputs, C09_hypotheses_are_accepted; compared on every run). "
+              "A received signal whose times are not increasing but which does not trip those checks is silently "
+              "mis-interpolated by numpy.interp - outside the property ('signal windows'). The exact run uses dyadic "
+              "times/values; decimal-fraction grids (0.1, 1/3, 0.3, 0.7 ns, random float values) are decided by the "
+              "tolerance search (1e-12) only. Histories are <= 20 operations in the run (unbounded in the theorems). "
+              "No _partial theorem; not proved: the system-side is_hit_mc_truth, LinearFE of the pedestal/echo front ends.")
 CHECKER_MODULES = ["PyrexVerif.Proofs.AntennaBook", "PyrexVerif.Proofs.AntennaInterp", "PyrexVerif.D.AntennaSM"]
 EXTRACTORS = []
 ASSUMPTIONS = ["real-noise run: the noise function of an epoch is learnt from the first observation of every absolute "
@@ -127,6 +140,11 @@ def build(cfg):
             if fe == "E":        # one-sample echo
                 v = np.array(signal.values, dtype=float)
                 return Signal(signal.times, v + 0.5 * np.concatenate(([0.0], v[:-1])), signal.value_type)
+            if fe == "C":        # amplifier clipping (as the shipped ARA / ARIANNA front ends): not additive
+                return Signal(signal.times, np.clip(np.array(signal.values, dtype=float), -1.0, 1.0),
+                              signal.value_type)
+            if fe == "V":        # rectifier (envelope-like, as the IREX front end): not additive
+                return Signal(signal.times, np.abs(np.array(signal.values, dtype=float)), signal.value_type)
             return signal
     if sthr is not None:         # a system-level trigger different from the antenna's
         Sys.trigger = lambda self, signal: bool(max(np.abs(signal.values)) > sthr)
@@ -186,6 +204,23 @@ def request(cfg, ops, old=False):
 
 def st_s(a):
     return "[%d %d %d %d]" % (len(a.signals), len(a._all_waves), len(a._triggers), a._noise_master is not None)
+
+
+def fe_apply(fe, pre):
+    """the harness's own evaluation of the six front ends on an array of samples"""
+    np = _mods()[0]
+    pre = np.array(pre, dtype=float)
+    if fe == "H":
+        return pre * 0.5
+    if fe == "B":
+        return pre - pre[0]
+    if fe == "E":
+        return pre + 0.5 * np.concatenate(([0.0], pre[:-1]))
+    if fe == "C":
+        return np.clip(pre, -1.0, 1.0)
+    if fe == "V":
+        return np.abs(pre)
+    return pre
 
 
 def times_arg(o):
@@ -354,7 +389,7 @@ def gen_cfg(rng):
         if cfg["inner"] == "dip":
             cfg["thr"] = rng.choice([0.5, 1.0, 2.5])
         cfg["lead"] = dt * rng.choice([0, 2.5, 10])
-        cfg["fe"] = rng.choice(["H", "H", "I", "B", "E"])
+        cfg["fe"] = rng.choice(["H", "H", "I", "B", "E", "C", "V"])
         cfg["sthr"] = rng.choice([None, None, 0.75, 1.5])        # system-level trigger overriding the antenna's
         cfg["via_class"] = int(rng.random() < 0.3)               # AntennaSystem(cls) + setup_antenna(...)
     return cfg
@@ -422,6 +457,9 @@ def correspondence(run):
                             % (case["cfg"]["kind"], case["windows"], [o[:2] for o in case["ops"]], why))
             if len(run.broken) > 5:
                 break
+    # inputs outside the theorems' hypotheses: the code raises there and the model says so
+    if not check_rejections(run):
+        ok = False
     # the lead-in grid on its own
     reqs, exp = [], []
     np = _mods()[0]
@@ -440,6 +478,112 @@ def correspondence(run):
         else:
             ok = False
             run.note_broken("correspondence: request `%s` model `%s` implementation `%s`" % (rq, rp[:300], ex[:300]))
+    return ok
+
+
+# --------------------------------------------------------------------------------------------
+# inputs the implementation rejects: the model's `fullWaveRejects` / `allWavesRejects` / `leadInRejects`
+# against the exceptions the real code raises (and their types)
+RAISES = (IndexError, ValueError, OverflowError, ZeroDivisionError)
+
+
+def gen_degenerate(rng):
+    """-> (kind, request, thunk running the real code)"""
+    np, pyrex, Signal, FunctionSignal = _mods()
+
+    def sig():
+        r = rng.random()
+        t0 = rng.randint(-4, 6)
+        if r < 0.2:
+            ts = []
+        elif r < 0.4:
+            ts = [float(t0)]
+        elif r < 0.55:
+            ts = [float(t0 + 3 - k) for k in range(rng.randint(2, 4))]           # running backwards
+        else:
+            ts = [float(t0 + k) for k in range(rng.randint(2, 5))]
+        return ts, [rng.randint(-8, 8) / 4.0 for _ in ts]
+
+    def window():
+        r = rng.random()
+        t0 = rng.randint(-4, 6)
+        if r < 0.15:
+            return []
+        if r < 0.35:
+            return [float(t0)]
+        if r < 0.5:
+            return [float(t0 + 3 - k) for k in range(rng.randint(2, 4))]
+        if r < 0.6:
+            return [float(t0), float(t0), float(t0 + 1)]                          # times[1] == times[0]
+        return [float(t0 + k) for k in range(rng.randint(2, 6))]
+    sigs = [sig() for _ in range(rng.randint(0, 2))]
+    ss = "%d" % len(sigs) + "".join(" %d" % len(ts) + "".join(" %s %s" % (frs(t), frs(v)) for t, v in zip(ts, vs))
+                                    for ts, vs in sigs)
+    kind = rng.choice(["F", "A", "L"])
+    cfg = {"kind": "sys" if kind == "L" else "ant", "noisy": 0, "dt": 1.0, "thr": None, "lead": 0.0, "fe": "I",
+           "inner": "ant"}
+    if kind == "F":
+        w = window()
+
+        def thunk():
+            a = build(cfg)
+            for ts, vs in sigs:
+                a.receive(Signal(np.array(ts, dtype=float), np.array(vs, dtype=float), Signal.Type.voltage))
+            return a.full_waveform(np.array(w, dtype=float)).values
+        return kind, "rejF %s %d%s" % (ss, len(w), "".join(" " + frs(t) for t in w)), thunk
+    if kind == "A":
+        def thunk():
+            a = build(cfg)
+            for ts, vs in sigs:
+                a.receive(Signal(np.array(ts, dtype=float), np.array(vs, dtype=float), Signal.Type.voltage))
+            return [w.values for w in a.all_waveforms]
+        return kind, "rejA " + ss, thunk
+    lead = rng.choice([0.0, 2.5, -1.0, -2.5, 10.0])
+    r = rng.random()
+    t0 = rng.randint(-4, 6)
+    if r < 0.15:
+        g = [float(t0)]
+    elif r < 0.4:
+        g = [float(t0), t0 + 2.0] + [t0 + 2.0 + 0.5 * k for k in range(1, rng.randint(2, 5))]   # large first gap
+    elif r < 0.5:
+        g = [float(t0), float(t0), t0 + 1.0]
+    else:
+        g = [t0 + 1.0 * k for k in range(rng.randint(2, 6))]
+    cfg["lead"] = lead
+
+    def thunk():
+        return build(cfg)._calculate_lead_in_times(np.array(g, dtype=float))
+    return kind, "rejL %s %d%s" % (frs(lead), len(g), "".join(" " + frs(t) for t in g)), thunk
+
+
+def check_rejections(run):
+    """the model rejects exactly where the implementation raises, and it raises IndexError / ValueError /
+    OverflowError (never returns garbage from a window of one sample, an empty signal, ...)"""
+    import warnings
+    cases = [gen_degenerate(run.rng) for _ in range(run.scale(120, 1200))]
+    replies = fw.run_driver("C09", [c[1] for c in cases])
+    ok = True
+    for (kind, rq, thunk), rp in zip(cases, replies):
+        try:
+            with warnings.catch_warnings():
+                warnings.simplefilter("ignore")
+                thunk()
+            imp = "accept"
+        except RAISES as e:
+            imp = "reject"
+            run.count("rejected_%s_%s" % (kind, type(e).__name__))
+        except Exception as e:
+            imp = "unexpected %s" % type(e).__name__
+        run.case(("reject", rq), nontrivial=imp == "reject")
+        if imp == "accept":
+            run.count("degenerate_accepted_" + kind)
+        if imp == rp:
+            run.traces += 1
+        else:
+            ok = False
+            run.note_broken("correspondence: request `%s` model `%s` implementation `%s`" % (rq[:300], rp, imp))
+            if len(run.broken) > 5:
+                break
     return ok
 
 
@@ -574,6 +718,83 @@ def shrink_real_noise(case):
 
 
 # --------------------------------------------------------------------------------------------
+# decimal-fraction grids (dt = 0.1 ns, 1/3 ns, 0.3 ns, 0.7 ns; arbitrary float values): outside the exact run,
+# where float arithmetic is no longer exact; the same clauses are decided with a tolerance
+DEC_DT = [1e-10, 1e-9 / 3, 0.3e-9, 0.7e-9, 1e-9]
+
+
+def gen_decimal_case(rng):
+    kind = rng.choice(["ant", "sys", "sys"])
+    dt = rng.choice(DEC_DT)
+    sigs = []
+    for _ in range(rng.randint(1, 4)):
+        sdt = rng.choice([dt, dt, rng.choice(DEC_DT)])
+        n = rng.randint(2, 40)
+        t0 = rng.uniform(-2e-8, 4e-8) if rng.random() < 0.85 else rng.uniform(5e-7, 6e-7)
+        sigs.append([t0, sdt, [rng.uniform(-3, 3) for _ in range(n)]])
+    return {"kind": kind, "fe": rng.choice(["I", "H", "C", "V"]), "lead": dt * rng.choice([0, 1, 2.5, 10, 3.7]),
+            "sigs": sigs, "window": [rng.uniform(-2e-8, 4e-8), dt, rng.randint(2, 60)]}
+
+
+def decimal_oracle(case):
+    np, pyrex, Signal, FunctionSignal = _mods()
+    cfg = {"kind": case["kind"], "noisy": 0, "dt": case["window"][1], "thr": None, "lead": case["lead"],
+           "fe": case["fe"], "inner": "ant"}
+    is_sys = case["kind"] == "sys"
+    fe = case["fe"] if is_sys else "I"
+
+    def feed(o):
+        for t0, sdt, vs in case["sigs"]:
+            o.receive(Signal(t0 + sdt * np.arange(len(vs)), np.array(vs), Signal.Type.voltage))
+    try:
+        obj, fresh = build(cfg), build(cfg)
+        feed(obj)
+        first = [np.array(w.values) for w in obj.all_waveforms]          # query, then receive again, query again
+        extra = case["sigs"][0]
+        obj.receive(Signal(extra[0] + extra[1] * np.arange(len(extra[2])), np.array(extra[2]), Signal.Type.voltage))
+        feed(fresh)
+        fresh.receive(Signal(extra[0] + extra[1] * np.arange(len(extra[2])), np.array(extra[2]), Signal.Type.voltage))
+        allsigs = case["sigs"] + [extra]
+
+        def want(x):
+            tot = np.zeros(len(x))
+            for t0, sdt, vs in allsigs:
+                tot = tot + np.interp(x, t0 + sdt * np.arange(len(vs)), vs, left=0, right=0)
+            return fe_apply(fe, tot)
+        x = case["window"][0] + case["window"][1] * np.arange(case["window"][2])
+        got = np.array(obj.full_waveform(x).values)
+        exp = want(x)
+        tol = 1e-12 * max(1.0, float(np.max(np.abs(exp))))
+        if len(got) != len(x) or np.max(np.abs(got - exp)) > tol:
+            return "full_waveform deviates from front_end(sum of interpolated signals) by %.3e" % np.max(np.abs(got - exp))
+        if not np.array_equal(got, np.array(fresh.full_waveform(x).values)):
+            return "full_waveform differs from a fresh object fed the same signals"
+        ws, fs = obj.all_waveforms, fresh.all_waveforms
+        if len(ws) != len(allsigs):
+            return "%d waveforms for %d signals" % (len(ws), len(allsigs))
+        for w, f, (t0, sdt, vs) in zip(ws, fs, allsigs):
+            ts = t0 + sdt * np.arange(len(vs))
+            e = want(ts)
+            if not np.array_equal(w.times, ts) or np.max(np.abs(np.array(w.values) - e)) > 1e-12 * max(1.0, float(np.max(np.abs(e)))):
+                return "a waveform is not front_end(sum of all signals) on its signal's grid"
+            if not np.array_equal(np.array(w.values), np.array(f.values)):
+                return "a waveform differs from a fresh object's"
+        if is_sys:
+            long = obj._calculate_lead_in_times(x)
+            n = len(long) - len(x)
+            step = x[1] - x[0]
+            if n < 0 or not np.array_equal(long[n:], x):
+                return "lead-in grid does not end with the window"
+            if n and np.max(np.abs(np.diff(long[:n + 1]) - step)) > 1e-9 * step:
+                return "lead-in grid does not keep the sample spacing"
+            if x[0] - long[0] < case["lead"] * (1 - 1e-9) - 1e-9 * step:
+                return "lead-in grid covers %.6e s < lead-in time %.6e s" % (x[0] - long[0], case["lead"])
+    except Exception as e:
+        return "exception %s: %s" % (type(e).__name__, str(e)[:100])
+    return None
+
+
+# --------------------------------------------------------------------------------------------
 # search: property-level oracles on the implementation alone
 def _interp0(np, ts, vs, x):
     return np.interp(x, ts, vs, left=0, right=0)
@@ -630,9 +851,7 @@ def oracle(cfg, ops):
                         n = int(np.floor(cfg["lead"] / step)) + 1
                         long = [ts[0] - (n - q) * step for q in range(n)] + list(ts)
                         pre = np.interp(long, ts, vs, left=0, right=0)
-                        fe = cfg["fe"]
-                        post = (pre * 0.5 if fe == "H" else pre - pre[0] if fe == "B"
-                                else pre + 0.5 * np.concatenate(([0.0], pre[:-1])) if fe == "E" else pre)
+                        post = fe_apply(cfg["fe"], pre)
                         if list(g.times) != list(ts) or list(g.values) != list(post[n:]):
                             return "op %d: processed signal %d is not front_end(signal on its lead-in grid)" % (i, j)
                     continue
@@ -654,6 +873,16 @@ def oracle(cfg, ops):
                         tot = tot + _interp0(np, ts, vs, np.array(x))
                     return scale * tot
 
+                def fe_of_sum(x):
+                    """every front end: front_end(sum of the signals on an independently built lead-in grid)"""
+                    step = x[1] - x[0]
+                    n = int(np.floor(cfg["lead"] / step)) + 1
+                    long = [x[0] - (n - q) * step for q in range(n)] + list(x)
+                    tot = np.zeros(len(long))
+                    for ts, vs in sigs:
+                        tot = tot + _interp0(np, ts, vs, np.array(long))
+                    return fe_apply(cfg["fe"], tot)[n:]
+
                 def trig(vals):
                     return True if thr is None else bool(max(abs(v) for v in vals) > thr)
                 if k == "A":
@@ -667,6 +896,8 @@ def oracle(cfg, ops):
                             return "op %d: waveform %d differs from a fresh antenna's" % (i, j)
                         if summable and list(g.values) != list(total(s[0])):
                             return "op %d: waveform %d is not the sum of the received signals" % (i, j)
+                        if is_sys and not cfg["noisy"] and list(g.values) != list(fe_of_sum(s[0])):
+                            return "op %d: waveform %d is not front_end(sum of the signals on the lead-in grid)" % (i, j)
                 elif k == "W":
                     got, ref = obj.waveforms, fresh.waveforms
                     if [list(g.values) for g in got] != [list(r.values) for r in ref]:
@@ -688,6 +919,8 @@ def oracle(cfg, ops):
                             return "op %d: full_waveform differs from a fresh antenna's" % i
                         if summable and list(g.values) != list(total(x)):
                             return "op %d: full_waveform is not the sum of the received signals" % i
+                        if is_sys and not cfg["noisy"] and list(g.values) != list(fe_of_sum(x)):
+                            return "op %d: full_waveform is not front_end(sum of the signals on the lead-in grid)" % i
                     else:
                         h = bool(obj.is_hit_during(times_arg(op)))
                         if h != bool(fresh.is_hit_during(np.array(x))):
@@ -721,6 +954,14 @@ def search(run, deep):
         if why:
             run.fail_input("leadin", {"dt": dt, "lead": lead, "grid": g}, observed=why, what=why)
             break
+    for _ in range(run.scale(120, 1500)):
+        case = gen_decimal_case(run.rng)
+        run.case(("decimal-grid", str(case)))
+        why = decimal_oracle(case)
+        if why:
+            run.fail_input("decimal-grid", case, observed=why, what=why[:200])
+            if len(run.violations) >= 3:
+                return
     for _ in range(1500 if deep else run.scale(150, 1500)):
         case = gen_real_noise_case(run.rng)
         run.case(("real-noise-oracle", str(case)), nontrivial=real_noise_nontrivial(case))
@@ -778,6 +1019,11 @@ def shrink(cfg, ops):
 
 def replay(run, data):
     inp = data["input"]
+    if data["kind"] == "decimal-grid":
+        why = decimal_oracle(inp)
+        if why:
+            run.fail_input("decimal-grid", inp, observed=why, what=why[:200])
+        return
     if data["kind"] == "real-noise":
         why = real_noise_oracle(inp)
         if why:
